@@ -499,7 +499,28 @@ def run(run):
                     extra.append((t, expr_str(c)[:100]))
         chain_ok = False
         filler_fns = set()
-        if not (ok and len(nul) == 1 and chp):
+        if not (ok and len(nul) == 1 and chp) and chp:
+            # `row.resize(row.len() + COUNT, '\0')` after the push of the character: appends COUNT fillers; COUNT evaluated
+            # as a function of the width option like in the iterator form
+            rs = [(bid_, t_) for bid_, t_ in prog.calls(sb) if re.search(r"Vec::<T, A>::resize$", Program.callee_name(t_)) and len(t_["args"]) == 3]
+            if len(rs) == 1:
+                bid_, t_ = rs[0]
+                newlen, fillv = strip(ex.operand(t_["args"][1])), ex.operand(t_["args"][2])
+                if newlen[0] == "bin" and newlen[1].replace("WithOverflow", "").replace("Unchecked", "") == "Add" and is_const(fillv, 0):
+                    parts = [strip(newlen[2]), strip(newlen[3])]
+                    lens = [x for x in parts if x[0] == "call" and re.search(r"Vec::<T, A>::len$", x[1])]
+                    cnts = [x for x in parts if x not in lens]
+                    if len(lens) == 1 and len(cnts) == 1:
+                        try:
+                            vals = [width_value(prog, cnts[0], w_, {}) for w_ in (None, 0, 1, 2)]
+                        except (ValueError, KeyError, IndexError, TypeError):
+                            vals = None
+                        gs_ = [strip(c_) for c_, tk_, sw_ in guards(prog, sb, bid_)]
+                        only_loops = all(c_[0] == "discr" and mentions(c_, lambda z: z[0] == "call" and z[1].endswith("Iterator>::next")) for c_ in gs_)
+                        if vals == [0, 0, 0, 1] and only_loops and not extra:
+                            chain_ok = True
+                            run.ok("C04.F4", "every character is pushed once, followed by NUL fillers for columns 1..width (resize(len + width - 1, NUL))", where(t_))
+        if not chain_ok and not (ok and len(nul) == 1 and chp):
             # the iterator form: `.flat_map(F)` over line.chars() with F (a closure or a function of the module) returning
             # `once(ch).chain(repeat('\0').take(COUNT))`, COUNT = width(ch) - 1 columns (0 when width is None or 0): COUNT is
             # evaluated as a function of the width option on None, Some(0), Some(1), Some(2) - any way of writing it is accepted
@@ -542,7 +563,7 @@ def run(run):
                     if rep_ok and cnt_ok and used:
                         chain_ok = True
                         filler_fns.add(q)
-            if chain_ok:
+            if chain_ok and filler_fns:
                 run.ok("C04.F4", "every character is followed by NUL fillers for columns 1..width (once(ch).chain(repeat(NUL).take(width - 1)))", where(prog.bodies[sb]))
         if chain_ok:
             pass
